@@ -238,6 +238,41 @@ def run(ctx):
     ctx.extra["used_types_cases"] = len(ulines)
     ctx.extra["graphs"] = len(cases)
     ctx.samples.append({"types": meta[-1]["types"], "check": json.loads(imp[-1])[0]})
+    # reference forms outside the object-type generator: or lists of literal types with {type: "@T"} (diamonds are not cycles), keys optional by default, rule-sets, a root whose
+    # file name looks like a type name
+    fixed = [
+        {"what": "diamond of literal type references", "schema": '1 // {or: ["@A", "@B"]}', "types": [["@A", '1 // {type: "@C"}'], ["@B", '2 // {type: "@C"}'], ["@C", "3"]], "check": "ok", "used": ["@A", "@B"]},
+        {"what": "the same type twice in an or list", "schema": '1 // {or: ["@A", "@A"]}', "types": [["@A", "1"]], "check": "ok", "used": ["@A"]},
+        {"what": "diamond through shortcuts", "schema": "@A | @B", "types": [["@A", "@C"], ["@B", "@C"], ["@C", "3"]], "check": "ok", "used": ["@A", "@B"]},
+        {"what": "a real cycle of literal type references", "schema": '1 // {type: "@A"}', "types": [["@A", '1 // {type: "@B"}'], ["@B", '1 // {type: "@A"}']], "check": "err", "used": ["@A"]},
+        {"what": "cycle through a property optional by default", "schema": "@A", "optional": True, "types": [["@A", '{\n  "a": @A\n}']], "check": "ok", "used": ["@A"]},
+        {"what": "cycle through an explicitly optional property", "schema": "@A", "types": [["@A", '{\n  "a": @A // {optional: true}\n}']], "check": "ok", "used": ["@A"]},
+        {"what": "cycle through a required property", "schema": "@A", "types": [["@A", '{\n  "a": @A\n}']], "check": "err", "used": ["@A"]},
+        {"what": "missing type inside an or rule-set", "schema": '1 // {or: [{type: "object", additionalProperties: "@ZZ"}, {type: "integer"}]}', "types": [], "check": "E1302", "used": ["@ZZ"]},
+        {"what": "missing type inside an or rule-set", "schema": '1 // {or: [{type: "@ZZ"}, {type: "integer"}]}', "types": [], "check": "E1302", "used": ["@ZZ"]},
+        {"what": "types inside an or rule-set", "schema": '1 // {or: [{type: "@A"}, "@B", {type: "@C", nullable: true}, {type: "object", additionalProperties: "@D"}]}',
+         "types": [["@A", "1"], ["@B", "2"], ["@C", "3"], ["@D", "4"]], "check": "ok", "used": ["@A", "@B", "@C", "@D"]},
+        {"what": "root file named like the type it contains", "schema": '{\n  "a": @A\n}', "rootname": "@A", "types": [["@A", "1"]], "check": "ok", "used": ["@A"]},
+    ]
+    # termination on an accepted dense graph: n object types, each a required union of all of them and a terminating @Z (every cycle ends in @Z)
+    nn = 8
+    dense = [["@T%d" % i, '{\n  "a": %s | @Z\n}' % " | ".join("@T%d" % j for j in range(nn))] for i in range(nn)] + [["@Z", "1"]]
+    fixed.append({"what": "dense union graph of %d types (Check must finish)" % nn, "schema": "@T0", "types": dense, "check": "ok", "used": ["@T0"]})
+    fouts = vc.impl_isolating(["schema"], [json.dumps({"schema": c["schema"], "types": c["types"], "optional": c.get("optional", False), "rootname": c.get("rootname", ""), "ops": [["check"], ["used"]]}) for c in fixed], 2,
+                              single_timeout=15)
+    for c, o in zip(fixed, fouts):
+        r = json.loads(o)
+        ctx.evaluations += 1
+        chk = r[0].split("@")[0]
+        if chk == "CRASH":
+            ctx.report("%s: Check does not finish within 15 s (or crashes); root %r" % (c["what"], c["schema"]), "c09fixedhang:" + c["schema"] + json.dumps(c["types"]), dict(c, implementation=r), case=c)
+            continue
+        good = (chk == "ok") if c["check"] == "ok" else (chk != "ok" if c["check"] == "err" else chk == c["check"])
+        if not good and len(ctx.violations) < 40:
+            ctx.report("%s: Check says %s, the statement says %s; root %r types %r" % (c["what"], r[0], c["check"], c["schema"], c["types"]), "c09fixed:" + c["schema"] + json.dumps(c["types"]), dict(c, implementation=r), case=c)
+        elif len(r) > 1 and r[1].startswith("U:") and sorted(x for x in r[1][2:].split(",") if x) != sorted(c["used"]) and len(ctx.violations) < 40:
+            ctx.report("%s: UsedUserTypes = %s, the schema text references %s; root %r" % (c["what"], r[1][2:], c["used"], c["schema"]), "c09fixedused:" + c["schema"], dict(c, implementation=r), case=c)
+    ctx.extra["fixed_reference_forms"] = len(fixed)
     if not st["proof"] and not ctx.violations:
         ctx.report("proof obligation(s) no longer check: %s" % ", ".join(ctx.proof_broken), "proof-broken", {"broken": ctx.proof_broken}, no_input=True)
 
